@@ -37,6 +37,7 @@ static unsigned envh, envt;
 static unsigned char* peer; static size_t peerlen;   /* what the peer end received */
 static unsigned char* cap; static size_t caplen;     /* what the interposers accepted */
 static int peerfds, peereof, shutok;
+static int owed_w, owed_s;     /* requests accepted by libuv whose callback has not run yet */
 
 /* libuv's allocator: `alloc_fail` armed = the next uv__malloc/uv__calloc/uv__realloc is refused */
 static int alloc_fail, alloc_refused;
@@ -168,11 +169,13 @@ static void obs(void) { if (!quiet) printf("obs wqs=%zu\n", uv_stream_get_write_
 
 static void write_cb(uv_write_t* req, int status) {
   struct wreq* w = (struct wreq*) req;
+  owed_w--;
   if (!quiet) printf("cb %u %d\n", w->id, status);
   free(w->data); free(w);
   run_script();
 }
 static void shutdown_cb(uv_shutdown_t* req, int status) {
+  owed_s--;
   if (!quiet) printf("shutcb %d\n", status);
   free(req);
   run_script();
@@ -229,7 +232,7 @@ static void do_write(const char* bufs, int with_handle, int try, int nomem) {
     alloc_fail = nomem;
     rc = uv_write2(&w->req, &h.s, b, n, with_handle ? (uv_stream_t*) &sendh : NULL, write_cb);
     alloc_fail = 0;
-    if (rc != 0) { free(data); free(w); }
+    if (rc != 0) { free(data); free(w); } else owed_w++;
   }
   free(b); free(lens);                       /* libuv must have copied the uv_buf_t array */
   if (!quiet) printf("ret %d\n", rc);
@@ -250,7 +253,7 @@ static void do_op(char* w, int in_script) {
   else if (!strcmp(w, "s") && !arg) {
     uv_shutdown_t* r = malloc(sizeof(*r));
     int rc = uv_shutdown(r, &h.s, shutdown_cb);
-    if (rc != 0) free(r);
+    if (rc != 0) free(r); else owed_s++;
     printf("ret %d\n", rc); obs();
   } else if (!strcmp(w, "c") && !arg) {
     int rc = -1;
@@ -306,6 +309,7 @@ static void do_open(const char* kind) {
 int main(void) {
   static char line[1 << 20];
   signal(SIGPIPE, SIG_IGN);
+  alarm(20);                     /* backstop: one program takes milliseconds */
   setvbuf(stdout, NULL, _IOFBF, 1 << 16);
   peer = malloc(PEERCAP); cap = malloc(PEERCAP);
   while (fgets(line, sizeof(line), stdin)) {
@@ -351,8 +355,12 @@ int main(void) {
     if (!closing) { closing = 1; uv_close((uv_handle_t*) &h.s, NULL); }
     uv_close((uv_handle_t*) &sendh, NULL);
     uv_close((uv_handle_t*) &keepalive, NULL);
-    uv_run(&loop, UV_RUN_DEFAULT);
-    uv_loop_close(&loop);
+    /* every handle is closing now: a healthy loop runs dry within a few iterations */
+    int alive = 1;
+    for (int i = 0; i < 64 && alive; i++) alive = uv_run(&loop, UV_RUN_NOWAIT);
+    printf("#teardown owed_w=%d owed_s=%d alive=%d reqs=%u\n", owed_w, owed_s, alive, loop.active_reqs.count);
+    fflush(stdout);
+    if (!alive) uv_loop_close(&loop);
   }
   return 0;
 }
